@@ -189,16 +189,18 @@ int main()
         std::vector<long> one, two;
         for (int b = 0; b < 256; ++b)
         {
-            byte c1[1] = {byte(b)};
+            // the designator is a view into a longer buffer: what lies behind the
+            // view ('5': the final byte of an extended designator) is not part of it
+            byte c1[2] = {byte(b), byte('5')};
             auto r = lookup_character_set(bytes(c1, 1));
             one.push_back(r ? long(r->value_) : -1);
-            byte c2[2] = {ansi::charset_extender, byte(b)};
+            byte c2[3] = {ansi::charset_extender, byte(b), byte('6')};
             auto r2 = lookup_character_set(bytes(c2, 2));
             two.push_back(r2 ? long(r2->value_) : -1);
         }
         optlist_def("g_lookup1", one);
         optlist_def("g_lookup2", two);
-        byte c3[1] = {ansi::charset_extender};
+        byte c3[2] = {ansi::charset_extender, byte('6')};
         auto r3 = lookup_character_set(bytes(c3, 1));
         optlist_def("g_lookup_extender_alone", {r3 ? long(r3->value_) : -1});
         auto r4 = lookup_character_set(bytes());
